@@ -761,6 +761,18 @@ pub fn generate(tier: &str, rng: &mut Rng) -> Vec<String> {
             out.push(case_of(kind, &with_pendings(&ck, rng, 5)));
         }
     }
+    // messages ABOVE 4 MiB (seed C17g: the layer refusing what only the default of the caller's configurable
+    // `max_decoding_message_size` would refuse): the grpc-web layer has no size limit of its own
+    for (sz, step) in [(4 * 1024 * 1024 + 1usize, usize::MAX), (5 * 1024 * 1024, 16384)] {
+        if !thorough && step != usize::MAX {
+            continue;
+        }
+        let mut full = frame(0, &[1, 2, 3]);
+        full.extend(frames_bytes(&[(0u8, vec![0x42u8; sz])]));
+        full.extend_from_slice(&tf0);
+        let ck: Vec<Vec<u8>> = if step == usize::MAX { vec![full.clone()] } else { full.chunks(step).map(|c| c.to_vec()).collect() };
+        out.push(case_of(kind, &data_evs(&ck)));
+    }
     // several frames, more than 64 KiB together, in one chunk with the trailers frame
     {
         let fs = vec![(0u8, big_payload(rng, 30000)), (1u8, big_payload(rng, 30001)), (0u8, big_payload(rng, 10000)), (0u8, vec![])];
